@@ -18,6 +18,9 @@ Definition may_miss (c : case) (cid : Z) (spch : string) (i : nat) (m : smsg) : 
   || existsb (fun jl => Nat.ltb (fst jl) i && match snd jl with
                                                | MarkDropped cs => zmem cid cs
                                                | StopColl c' _ => Z.eqb c' cid
+                                               (* the partition was registered as dropped in the source catalog (dropped on both sides, or about
+                                                  to be dropped by the handler-generated drop message) *)
+                                               | AddPart c' p' _ _ true => Z.eqb c' cid && Z.eqb p' (m_part m)
                                                | _ => false end)
              (combine (seq 0 (List.length (c_labels c))) (c_labels c))
   || String.eqb (m_pname m) "" && mkind_eqb (m_kind m) KDropPart.
